@@ -50,6 +50,9 @@ WellTyped(t) ==
                    /\ d.dt = 0 \/ t.op.n \in {"all", "any"}
                    /\ t.op.n \in {"all", "any"} => d.dt = 2
                    /\ t.op.p[1] = NoAxis \/ (t.op.p[1] >= -Len(d.sh) /\ t.op.p[1] < Len(d.sh))
+              [] t.op.n \in ArrayStats ->
+                   /\ d.dt = 0
+                   /\ t.op.p[1] = NoAxis \/ (t.op.p[1] >= -Len(d.sh) /\ t.op.p[1] < Len(d.sh))
               [] t.op.n = "reshape" -> Size(t.op.p) = Size(d.sh)
               [] t.op.n = "getslice" ->
                    /\ Len(t.op.p) <= Len(d.sh)
@@ -272,11 +275,13 @@ DoAlign ==
 
 DoIndep ==
   /\ "Indep" \in Acts /\ CanStep
-  /\ \E b \in 1..Len(RedVars), n \in 1..Len(NewNames) :
+  /\ \E b \in 1..Len(RedVars), n \in 0..Len(NewNames) :
        LET fi == Last.ti IN
        \E d \in 1..Len(fi) :
          /\ fi[d][2].dt = 0
-         /\ LET t == Mk([c |-> "Indep", fn |-> Last, rv |-> NewNames[n],
+         \* n = 0: the new real input reuses the name of the diagonal variable it replaces
+         \* (Independent(f, "value", name, "value"), as funsor.distribution writes it)
+         /\ LET t == Mk([c |-> "Indep", fn |-> Last, rv |-> IF n = 0 THEN fi[d][1] ELSE NewNames[n],
                       bv |-> RedVars[b][1], dv |-> fi[d][1]])
             IN Admissible(t) /\ Push(t)
 
